@@ -84,6 +84,16 @@ fn merge<'a, T: VecData<T> + 'a, C: Comparator<T>>(
     (result, ops)
 }
 
+
+#[cfg(feature = "verif")]
+pub fn verif_merge_i64(left: &[i64], right: &[i64], limit: usize, desc: bool) -> (Vec<i64>, Vec<u8>) {
+    if desc {
+        merge::<i64, CmpGreaterThan>(left, right, limit)
+    } else {
+        merge::<i64, CmpLessThan>(left, right, limit)
+    }
+}
+
 #[cfg(test)]
 mod test {
     use super::*;
